@@ -228,6 +228,8 @@ func runC47(r *Report) {
 		r.ObSite("R47a", e.site, "emission-sent:"+key(e.tokens)+"@"+e.arm, feasibleMustPass(e.site, isSent, emptySkip, 400000),
 			"every emitted setup command is sent by the setup DoMulti (or superseded by the RESP2 arm) before a usable pipe is returned")
 	}
+	sentinelOptRule(r)
+
 	// R47b failure arms
 	accepted := func(g Guard) bool {
 		if !g.Pol && !strings.Contains(DescDeep(g.Cond), "MatchString") {
@@ -339,6 +341,34 @@ func RetVals(ret *ssa.Return) []ssa.Value {
 		}
 	}
 	return out
+}
+
+// sentinelOptRule (R47c): connections to sentinels use the sentinel's own credentials, name,
+// dialer and TLS configuration and no database selection - unconditionally.
+func sentinelOptRule(r *Report) {
+	fn := r.FnAnchor("R47c", "rueidis.newSentinelOpt")
+	if fn == nil {
+		return
+	}
+	for _, f := range []string{"Username", "Password", "ClientName", "Dialer", "TLSConfig", "SelectDB"} {
+		f := f
+		ok, _ := MustPassFromEntry(fn, func(in ssa.Instruction) bool {
+			st, isst := in.(*ssa.Store)
+			if !isst {
+				return false
+			}
+			t, fld, _, isf := FieldRef(st.Addr)
+			if !isf || fld != f || !strings.HasSuffix(t, "ClientOption") {
+				return false
+			}
+			if f == "SelectDB" {
+				k, isc := ConstInt(st.Val)
+				return isc && k == 0
+			}
+			return strings.HasSuffix(DescDeep(st.Val), ".Sentinel."+f)
+		})
+		r.Ob("R47c", fn, "sentinel-session-setting:"+f, fn.Pos(), ok, "on every path the option used for sentinel connections takes "+f+" from the Sentinel sub-option (SelectDB: 0), whatever its value")
+	}
 }
 
 func dedup(s []string) []string {
